@@ -138,6 +138,11 @@ func GenDistrCfg(t *rapid.T, o DistrGenOpts) DCfg {
 	if rapid.IntRange(0, 24).Draw(t, "wideCfg") == 0 {
 		wide = rapid.IntRange(95, 130).Draw(t, "wideShares")
 	}
+	// ... and one in twelve sweeps many accounts: 8-40 more base accounts among the sources of its first sub-distributor
+	manySources := 0
+	if rapid.IntRange(0, 11).Draw(t, "manySourcesCfg") == 0 {
+		manySources = rapid.IntRange(8, 40).Draw(t, "manySources")
+	}
 	for i := 0; i < n; i++ {
 		l := fmt.Sprintf("sd%d", i)
 		used := map[string]bool{}
@@ -151,6 +156,13 @@ func GenDistrCfg(t *rapid.T, o DistrGenOpts) DCfg {
 		if len(sd.Sources) == 0 {
 			sd.Sources = []DAcc{{Type: tMain}}
 			used[tMain] = true
+		}
+		if i == 0 && manySources > 0 {
+			for k := 0; k < manySources; k++ {
+				a := DAcc{Type: tBase, Id: FreshAddr(7000 + k).String()}
+				used[a.Key()] = true
+				sd.Sources = append(sd.Sources, a)
+			}
 		}
 		if !o.AllowMainLater {
 			sort.SliceStable(sd.Sources, func(a, b int) bool { return sd.Sources[a].Type == tMain && sd.Sources[b].Type != tMain })
@@ -284,6 +296,11 @@ func (c DCfg) Classes() map[string]bool {
 	}
 	if len(c.Accounts()) > 100 {
 		cl["more_than_100_accounts_in_the_configuration"] = true
+	}
+	for _, sd := range c.Subs {
+		if len(sd.Sources) >= 8 {
+			cl["subdistributor_sweeping_8_or_more_accounts"] = true
+		}
 	}
 	internalIds := map[string]bool{}
 	otherIds := map[string]bool{}
